@@ -70,9 +70,6 @@ theorem stripGo_spec (l : Str) : ∀ q : Nat,
         intro k hh
         exact hno (k + 1) ((hit_succ q c r k).2 hh)
 
-/-- `%` at position `k` of the line is outside every string literal -/
-def CommentAt (l : Str) (k : Nat) : Prop := l[k]? = some '%' ∧ (l.take k).count '"' % 2 = 0
-
 theorem commentAt_iff (l : Str) (k : Nat) : CommentAt l k ↔ Hit 0 l k := by simp [CommentAt, Hit]
 
 theorem stripComment_cut (l : Str) (k : Nat) (hk : CommentAt l k)
